@@ -8,7 +8,9 @@ Every event gets a fixed schema (TLC cannot compare values of different types
 and rejects missing keys), absent values are sentinels (0, "", [])."""
 import json, re, sys, os
 
-FNSIG = {('f', 'int(int)'): 1, ('f', 'int(std::string const&)'): 2, ('g', 'int(int, int)'): 3, ('v', 'void(int)'): 4}
+FNSIG = {('f', 'int(int)'): 1, ('f', 'auto (int) -> int'): 1,   # the arity-less MAKE_MOCK form prints the signature as written
+         ('f', 'decltype(::trompeloeil::nonconst_member_signature(&trompeloeil_interface_name::f))::type'): 1,   # IMPLEMENT_MOCK1
+         ('f', 'int(std::string const&)'): 2, ('g', 'int(int, int)'): 3, ('v', 'void(int)'): 4}
 
 LOC = r'(\S+?\.cpp):(\d+)'
 
